@@ -178,7 +178,7 @@ func (g *G) rawContent(term string) string {
 	n := g.intn(0, 8, "rawlen")
 	var b strings.Builder
 	for i := 0; i < n; i++ {
-		c := pickOne(g, []string{"a", "B", " ", "\"", "%", "%20", "%u0041", "{", "}", "\n", "é", "x\"y", "\"\"", "#", "//", "/*", ";"}, "rawch")
+		c := pickOne(g, []string{"a", "B", " ", "\"", "%", "%20", "%u0041", "{", "}", "\n", "é", "x\"y", "\"\"", "#", "//", "/*", ";", "\n\n\n", "\n\n\n\n"}, "rawch")
 		b.WriteString(c)
 	}
 	s := b.String()
